@@ -7,11 +7,13 @@ CFG = dict(
         "Inst.gen_header_roundtrip: from_raw_bytes (to_raw_bytes h) = h for the regenerated offsets",
         "Inst.gen_magic_first: a written file starts with the magic (detect_version sees v3)",
         "Inst.gen_save_order: create temp < write < rename(temp, path) in both save functions",
+        "Inst.gen_steps_safe: the file-system steps of both save functions are temp-file steps only, leave the temp file complete and end with the one rename (no unlink / direct write of the target)",
     ],
     crate="nvh_c07",
     header=H + "From NV.C07 Require Import Types Model Run.\nOpen Scope N_scope.",
     kinds={"hdr": ("hdr_case", "check_hdr"), "rt": ("rt_case", "check_rt_full"),
-           "q": ("q_case", "check_q"), "crash": ("crash_case", "check_crash")},
+           "q": ("q_case", "check_q"), "crash": ("crash_case", "check_crash"),
+           "observe": ("observe_case", "check_observe")},
     known_classes={0: "quant-bytes-scalar", 1: "quant-id-list", 2: "sparse-threshold", 3: "tmp-extension"},  # 1-3 were fixed in /repo: a hit is a violation again
     shard=60,
     rule="seeded stores over all value kinds and key classes, saved and reloaded through files (zstd / raw), bytes and the quantising format on the real tensor_store and on the Gallina model; mid-save crash states captured through the guarded hook and truncated at every byte",
